@@ -19,10 +19,19 @@ def append_pairs(seed, tier):
     sufs = ["".join(t) for L in (1, 2) for t in itertools.product(alpha, repeat=L)]
     pairs = [(o, o + s_) for o in olds for s_ in sufs]
     fixed = [("foo$", "foo$b"), ("a\\", "a\\ b"), ("foo", "foob"), ("^a", "^ab"), ("'a", "'ab"), ("a$", "a$ b"), ("!a", "!ab")]
+    # non-ASCII alphabet: characters whose case / normalisation behaviour differs (the non-ASCII branch of the
+    # atom constructor, smart case and smart normalisation flipping while typing)
+    ualpha = ["a", "\u00e9", "\u0185", "\u2c65", "\u023a", "\u00c4", "\u017f", "$", "\\", " ", "'"]
+    uolds = ["".join(t) for L in (1, 2) for t in itertools.product(ualpha, repeat=L)]
+    usufs = ["".join(t) for L in (1, 2) for t in itertools.product(ualpha, repeat=L)]
+    upairs = [(o, o + s_) for o in uolds for s_ in usufs]
+    fixed += [("'a\\$", "'a\\$b"), ("^\\$", "^\\$a"), ("\u0185", "\u0185\u00e9"), ("a\\$", "a\\$b")]
     if tier == "quick":
         rng.shuffle(pairs)
         pairs = pairs[:6000]
-    return fixed + pairs
+        rng.shuffle(upairs)
+        upairs = upairs[:3000]
+    return fixed + pairs + upairs
 
 
 def append_check(ctx, res):
@@ -36,24 +45,62 @@ def append_check(ctx, res):
     if rc != 0 or len(lines) != len(pairs):
         res["disagreements"].append({"what": "hn append failed: rc=%s %s" % (rc, err[-200:])})
         return
+    # the model's decision (Spec/AppendSpec.update_allowed on the parsed atoms of the old text) and its K3 predicate
+    cps = lambda t: ",".join(str(ord(c)) for c in t) or "-"
+    p2 = os.path.join(vlib.SCRATCH, "append_m_%d.txt" % os.getpid())
+    open(p2, "w").write("".join("%s\t%s\n" % (cps(o), cps(n)) for o, n in pairs))
+    rc2, out2, err2, _ = vlib.run([ctx["driver"], "append", p2], timeout=600)
+    os.unlink(p2)
+    mlines = out2.splitlines()
+    if rc2 != 0 or len(mlines) != len(pairs):
+        res["disagreements"].append({"what": "driver append failed: rc=%s %s" % (rc2, err2[-200:])})
+        return
     nupd = 0
-    for (old, new), l in zip(pairs, lines):
-        st, bits = l.split(" ")
+    ndis = 0
+    for (old, new), l, ml in zip(pairs, lines, mlines):
+        mst, mk3 = ml.split(" ")
+        if mst != "?" and mst != l.split(" ")[0]:
+            ndis += 1
+            if ndis <= 5:
+                res["disagreements"].append({"what": "append decision differs for old text %r + suffix %r: implementation status %s, model (AppendSpec.update_allowed) %s (1 = Update, 2 = Rescore)" % (old, new[len(old):], l.split(" ")[0], mst), "pair": [old, new]})
+        head, _, dyn = l.partition("\t")
+        st, bits = head.split(" ")
         res["evaluations"] += 1
         if st == "1":
             nupd += 1
-            bad = [HAYSTACKS[k] for k, b in enumerate(bits) if b == "2"]
+            bad = [HAYSTACKS[k] for k, b in enumerate(bits) if b == "2"] + [bytes.fromhex(x).decode("utf-8") for x in dyn.split(",") if x]
             if bad and len(res["failures"]) < 200:
-                res["failures"].append({"class": "append", "what": "typing %r after %r is treated as a refinement (status Update: only the current matches are rescored) but the new pattern matches %r which the old pattern does not: those items are lost until the next full rescore" % (new, old, bad[:4]), "case": "", "pair": [old, new]})
+                res["failures"].append({"class": "append", "what": "typing %r after %r is treated as a refinement (status Update: only the current matches are rescored) but the new pattern matches %r which the old pattern does not: those items are lost until the next full rescore" % (new, old, bad[:4]), "case": "", "pair": [old, new], "k3": (mk3 == "0") if mk3 != "?" else k3_text(old)})
     res["extra"]["append_pairs"] = len(pairs)
     res["extra"]["append_pairs_with_status_update"] = nupd
 
 
 def run(ctx, broken):
-    res = ncommon.generic(ctx, noracles.c07, ncommon.RULE + " Text half: %s (old text, old text + suffix) pairs over the alphabet {a b A $ \\ space ! ^ '} typed through MultiPattern::reparse with the append flag; whenever the status is Update every haystack of a 28-string pool matched by the new pattern must be matched by the old one." % ("6000 random" if ctx["tier"] == "quick" else "all 63k"), extra_seed=7)
+    res = ncommon.generic(ctx, noracles.c07, ncommon.RULE + " Text half: %s (old text, old text + suffix) pairs over the alphabet {a b A $ \\ space ! ^ '} typed through MultiPattern::reparse with the append flag; plus pairs over a non-ASCII alphabet (e-acute, U+0185, U+2C65, U+023A, A-umlaut, long s); whenever the status is Update every haystack of a 28-string pool and three haystacks derived from the new pattern (its text, its needles, its needles upper-cased) matched by the new pattern must be matched by the old one." % ("6000 random" if ctx["tier"] == "quick" else "all 63k"), extra_seed=7)
     append_check(ctx, res)
     return res
 
 
+K3_CHARS = "\u0185\u2c65\u2c66"
+
+
+def k3_text(old):
+    """the K3 predicate on the raw old text, for texts outside the parser model's segmentation class (the
+    model prints `?`): the last atom (after the last unescaped space) contains one of the three characters"""
+    last, esc = "", False
+    for c in old:
+        if c == " " and not esc:
+            last = ""
+        else:
+            last += c
+        esc = (c == "\\") and not esc
+    return any(c in last for c in K3_CHARS)
+
+
 def known(f, kf):
+    # K3: the last atom of the previous text contains U+0185 / U+2C65 / U+2C66 (lower-case letters that
+    # chars::normalize leaves alone while it rewrites their upper-case forms)
+    if f.get("class") == "append" and f.get("k3"):
+        if True:
+            return next((k for k in kf.get("known", []) if k["id"] == "K3"), None)
     return None
